@@ -40,9 +40,17 @@ TraceCall == /\ Active /\ Ev.ev = "call"
              /\ \A v \in bad' : PrintT(<<"LAWFAIL", v, Sessions[r].sid, l>>)
              /\ l' = l + 1 /\ r' = r
 
+\* g unobserved calls on fixed small operands between two observed calls: equal operands, so
+\* all of them must have returned the same value (the recorder counts distinct result digests)
+TraceFiller == /\ Active /\ Ev.ev = "filler"
+               /\ bad' = IF "C12" \in Laws /\ Ev.n > 0 /\ Ev.distinct # 1 THEN {"C12"} ELSE {}
+               /\ \A v \in bad' : PrintT(<<"LAWFAIL", v, Sessions[r].sid, l>>)
+               /\ UNCHANGED <<val, meta, log>>
+               /\ l' = l + 1 /\ r' = r
+
 Done == ~Active /\ UNCHANGED vars
 
-Next == TraceDefine \/ TraceCall \/ Done
+Next == TraceDefine \/ TraceCall \/ TraceFiller \/ Done
 TraceSpec == Init /\ [][Next]_vars
 
 \* every event of every session was consumed (or the session stopped at a reported failure)
